@@ -2,6 +2,8 @@
   C04 — closing and reopening preserves the series exactly.
 -/
 import BS.Proofs.LastMeta
+import BS.Proofs.Reopen
+import BS.Proofs.Total
 
 namespace BS.Props.C04
 open BS BS.Impl
@@ -44,5 +46,71 @@ theorem window_larger_than_overlap (p : Nat) : ∃ Wl, lastMetaWindow p = Wl * l
 example (p : Nat) (xs : List Entry) :
     IndexState p xs (some (ihdr ++ (Spec.encIndex (Spec.sections p xs)).take (Spec.encIndex (Spec.sections p xs)).length)) :=
   IndexState.cut _
+
+/-- **Through the whole API model: create, append anything, close, reopen.**  For any payload
+size, header, sequence of append attempts and any legitimate state of the index file, reopening
+the intact series (payload size demanded or retrieved, header demanded or any) succeeds,
+leaves the data file byte-identical and yields a session in which the history is exactly
+the accepted lines — so `read_all(..)`, `len`, `range`, `last_line` and the append rule (C03)
+are those of one uninterrupted session; repeating close/reopen any number of times is the
+same statement again. -/
+theorem api_reopen_preserves (p : Nat) (hp : p ≤ u64Max) (hdr : Option Bytes)
+    (hH : (toText p ++ hdr.getD []).length ≤ 65535) (atts : List (Nat × Bytes)) (hts : ∀ a ∈ atts, a.1 < 2^64)
+    (hc : TailClean p (acceptAll p [] atts)) (hsize : (Spec.encode p (acceptAll p [] atts)).length < 2^64)
+    (ix : Option Bytes) (hix : IndexState p (acceptAll p [] atts) ix)
+    (cb : Option Bool) (pOpt : Option Nat) (hpo : pOpt = none ∨ pOpt = some p)
+    (hOpt : Option Bytes) (hho : hOpt = none ∨ hOpt = some (hdr.getD [])) :
+    ∃ dir0 s0 dir1 s1, apiNew {} p hdr [] = (dir0, .ok (s0, hdr.getD [])) ∧
+      pushAll dir0 s0 atts = some (dir1, s1) ∧
+      ∃ dir2 s2, apiOpen { dir1 with main := { dir1.main with index := ix } } pOpt hOpt [] cb
+          = (dir2, .ok (s2, hdr.getD [])) ∧ s2.d.p = p ∧ dir2.main.data = dir1.main.data ∧
+        SessInv (seriesHdr p (hdr.getD [])) ihdr dir2 s2 (acceptAll p [] atts) := by
+  obtain ⟨dir0, s0, dir1, s1, hnew, hall, hre⟩ := reopen_after_any_history p hp hdr hH atts hts hc hsize
+    (Spec.encode p (acceptAll p [] atts)).length ix hix cb pOpt hpo hOpt hho
+  refine ⟨dir0, s0, dir1, s1, hnew, hall, ?_⟩
+  -- what the first session left behind
+  obtain ⟨_, _, hnew', _, _, _, hinv0⟩ := apiNew_inv p hdr [] hH ⟨by simp, by simp⟩
+  rw [hnew] at hnew'
+  have hv := acceptAll_valid p atts [] (by simp [Valid]) hts
+  have hfull := linesWithin_full p (acceptAll p [] atts) (fun x hx => (hv.2 x hx).2)
+  obtain ⟨dir2, s2, hopen, hp2, hinv2⟩ := hre (dir1.main.data.map fun b =>
+    b.take ((seriesHdr p (hdr.getD [])).length + (Spec.encode p (acceptAll p [] atts)).length)) rfl
+  rw [hfull, List.take_length] at hinv2
+  -- the cut at the full length is no cut
+  have hd1 : dir1.main.data = some (seriesHdr p (hdr.getD []) ++ Spec.encode p (acceptAll p [] atts)) := by
+    simp only [Prod.mk.injEq, Except.ok.injEq] at hnew'
+    obtain ⟨hd0, hs0, _⟩ := hnew'
+    subst hd0; subst hs0
+    obtain ⟨_, _, hall', hp1, _, _, hinv1⟩ := pushAll_inv _ _ atts _ _ [] hinv0 hts
+    rw [hall] at hall'
+    simp only [Option.some.injEq, Prod.mk.injEq] at hall'
+    obtain ⟨hd1, hs1⟩ := hall'
+    subst hd1; subst hs1
+    have := hinv1.data.data
+    rw [hp1] at this
+    have hp0 : s0.d.p = p := by
+      have := hinv0.valid
+      exact (by
+        obtain ⟨_, _, hnew2, hp0, _⟩ := apiNew_inv p hdr [] hH ⟨by simp, by simp⟩
+        rw [hnew] at hnew2
+        simp only [Prod.mk.injEq, Except.ok.injEq] at hnew2
+        rw [hnew2.2.1]; exact hp0)
+    rw [hp0] at this; exact this
+  have hsame : (dir1.main.data.map fun b =>
+      b.take ((seriesHdr p (hdr.getD [])).length + (Spec.encode p (acceptAll p [] atts)).length)) = dir1.main.data := by
+    rw [hd1]
+    simp only [Option.map_some]
+    rw [List.take_of_length_le (by simp)]
+  rw [hsame] at hopen
+  have hdir : ({ dir1 with main := { dir1.main with data := dir1.main.data, index := ix } } : Dir)
+      = { dir1 with main := { dir1.main with index := ix } } := rfl
+  rw [hdir] at hopen
+  refine ⟨dir2, s2, hopen, hp2, ?_, hinv2⟩
+  rw [hinv2.data.data, hp2, hd1]
+
+/-- … and what a full read returns after that reopen is exactly the accepted history -/
+theorem read_after_reopen (hdr ihdr : Bytes) (dir : Dir) (s : Sess) (e : Entry) (es : List Entry)
+    (hinv : SessInv hdr ihdr dir s (e :: es)) : apiReadAll dir s .unb .unb = .ok (e :: es) :=
+  readAll_unbounded hdr ihdr dir s e es hinv
 
 end BS.Props.C04
